@@ -440,7 +440,9 @@ TR(i32, minstd, 2) TR(i64, minstd, 4) TR(i32, word64, 2) TR(i64, word64, 2)
 //@harness h_tr1_m3_i64_{G} for G in minstd,word64 param wd=0,1,2,7,16,100,101 tier=quick loop=24
 //@harness h_tr2_m3_i64_{G} for G in minstd,word64 param wd=2,16 tier=quick loop=24
 //@harness h_tr1_m{M}_{T}_{G} for M in 0,1,2 for T in i32,i64 for G in minstd,word64 tier=thorough loop=24 wall=900
-//@harness h_tr2_m{M}_{T}_{G} for M in 0,1 for T in i32,i64 for G in minstd,word64 tier=thorough loop=24 wall=900
+//@harness h_tr2_m1_{T}_{G} for T in i32,i64 for G in minstd,word64 tier=thorough loop=24 wall=900
+//@harness h_tr2_m0_{T}_minstd for T in i32,i64 tier=thorough loop=24 wall=900
+// (h_tr2_m0_*_word64 - two draws, fully symbolic interval, 128-bit products - is not decided by z3 within 60 s per query: not claimed)
 //@harness h_tr1_m3_i32_{G} for G in minstd,word64 param wd=0,1,2,7,16,100,101 tier=thorough loop=24 wall=900
 H(h_tr2_strong_int_word32, transparent<strong_int, int, word32>(0, 2, 3)) H(h_tr1_strong_int_word32, transparent<strong_int, int, word32>(0, 1, 2))
 H(h_tr1_strong_u64_word64, transparent<strong_u64, std::uint64_t, word64>(3, 1, 2))
